@@ -54,11 +54,16 @@ structure Repl where
   count : Option Nat
 
 /-- errno of a failed `os.readlink` -/
-inductive LinkErr | enoent | esrch | einval | enametoolong
+inductive LinkErr | enoent | esrch | einval | enametoolong | eacces
   deriving DecidableEq, Repr
 
 /-- errno of a failed `open()` of an fdinfo / io file (the two the code handles) -/
 inductive GoneErr | enoent | esrch
+  deriving DecidableEq, Repr
+
+/-- errno of a failed `os.listdir("/proc/<pid>/fd")` / `open("/proc/<pid>/io")`: the process is
+    gone, or the monitor is refused (EACCES / EPERM → PermissionError) -/
+inductive FileErr | gone (e : GoneErr) | denied
   deriving DecidableEq, Repr
 
 structure Cfg where
@@ -103,6 +108,23 @@ structure Cfg where
   pioFields : List Bytes
   /-- is `int(value)` inside the `try:` whose `except ValueError` skips the line? -/
   ioIntGuarded : Bool
+  /-- `isfile_strict` re-raises PermissionError (`except PermissionError: raise` precedes the
+      `except OSError: return False`) -/
+  isfileDeniedRaises : Bool
+  /-- same for `path_exists_strict` (used by `readlink()` for the `' (deleted)'` rule) -/
+  existsDeniedRaises : Bool
+  /-- the handler around `readlink(file)` that sets `hit_enoent` also catches PermissionError -/
+  linkGoneDenied : Bool
+  /-- the `except OSError` around `readlink(file)` re-raises EACCES / EPERM (it only `continue`s
+      for the errnos it names, and those are not EACCES / EPERM) -/
+  linkDeniedRaises : Bool
+  /-- the handler around the fdinfo block that sets `hit_enoent` also catches PermissionError -/
+  infoGoneDenied : Bool
+  /-- `wrap_exceptions`: `except PermissionError` → `raise AccessDenied(pid, name)` -/
+  wrapPermAD : Bool
+  /-- `wrap_exceptions`: the ProcessLookupError and FileNotFoundError handlers call
+      `self._raise_if_zombie()` before anything else -/
+  wrapZombieFirst : Bool
 
 /-! ### what the methods can raise -/
 
@@ -110,6 +132,7 @@ inductive Exc
   | fileNotFound | processLookup | osError
   | keyError | valueError | indexError | runtimeError
   | noSuchProcess
+  | permissionError | accessDenied | zombieProcess
   deriving DecidableEq, Repr
 
 inductive Outcome (α : Type)
@@ -117,15 +140,23 @@ inductive Outcome (α : Type)
   | exc (e : Exc)
   deriving DecidableEq, Repr
 
-/-- `wrap_exceptions` for a process that is not a zombie: `alive` = `/proc/<pid>/stat` exists. -/
-def wrapExc (alive : Bool) : Exc → Exc
-  | .fileNotFound => if alive then .fileNotFound else .noSuchProcess
-  | .processLookup => .noSuchProcess
+/-- `wrap_exceptions`: `alive` = `/proc/<pid>/stat` exists (and can be read), `zombie` = its state
+    letter is `Z` (`_is_zombie()` answers False when the file cannot be read).
+    PermissionError → AccessDenied; ProcessLookupError → ZombieProcess for a zombie, else
+    NoSuchProcess; FileNotFoundError → ZombieProcess for a zombie, NoSuchProcess when
+    `/proc/<pid>/stat` is gone, else re-raised. -/
+def wrapExc (cfg : Cfg) (alive zombie : Bool) : Exc → Exc
+  | .permissionError => if cfg.wrapPermAD then .accessDenied else .permissionError
+  | .fileNotFound =>
+    if cfg.wrapZombieFirst && (alive && zombie) then .zombieProcess
+    else if alive then .fileNotFound else .noSuchProcess
+  | .processLookup =>
+    if cfg.wrapZombieFirst && (alive && zombie) then .zombieProcess else .noSuchProcess
   | e => e
 
-def wrap (alive : Bool) : Outcome α → Outcome α
+def wrap (cfg : Cfg) (alive zombie : Bool) : Outcome α → Outcome α
   | .ok v => .ok v
-  | .exc e => .exc (wrapExc alive e)
+  | .exc e => .exc (wrapExc cfg alive zombie e)
 
 /-! ### file_flags_to_mode -/
 
@@ -156,6 +187,8 @@ inductive InfoRes
   | openErr (e : GoneErr)
   | ok (content : Bytes)
   | readErr (content : Bytes) (second : Bool) (e : GoneErr)
+  /-- the `open` fails with EACCES / EPERM -/
+  | openDenied
 
 /-- one name returned by `os.listdir("/proc/<pid>/fd")` with what the later accesses answer -/
 structure Entry where
@@ -163,16 +196,23 @@ structure Entry where
   link : Res LinkErr Bytes      -- `os.readlink("/proc/<pid>/fd/<name>")`
   info : InfoRes
 
-/-- the file system `isfile_strict` / `path_exists_strict` look at (no EACCES: see notes) -/
+/-- the file system `isfile_strict` / `path_exists_strict` look at: `os.stat(p)` succeeds on a
+    regular file (`isFile`), succeeds (`pathExists`), or fails with EACCES / EPERM (`denied`: a
+    directory on the way that the monitor may not search, another user's FUSE mount …). A path
+    that is `denied` is neither `isFile` nor `pathExists` (the same `os.stat` cannot both fail and
+    succeed); the model asks `denied` first wherever the code lets PermissionError through. -/
 structure FS where
   isFile : Bytes → Bool
   pathExists : Bytes → Bool
+  denied : Bytes → Bool := fun _ => false
 
 structure Proc where
   /-- `os.listdir("/proc/<pid>/fd")` -/
-  fdDir : Res GoneErr (List Entry)
+  fdDir : Res FileErr (List Entry)
   /-- `/proc/<pid>` and `/proc/<pid>/stat` still exist when looked at after the scan -/
   alive : Bool
+  /-- the state letter in `/proc/<pid>/stat` is `Z` -/
+  zombie : Bool := false
 
 structure POpenFile where
   path : Bytes
@@ -189,6 +229,12 @@ def pyReadlink (cfg : Cfg) (fs : FS) (raw : Bytes) : Bytes :=
   let path := raw.takeWhile (· != 0)
   if endsWith cfg.delSuffix path && !fs.pathExists path then path.take (path.length - cfg.delCut)
   else path
+
+/-- `path_exists_strict(path)` inside `readlink()` lets a PermissionError of `os.stat` through
+    (it is only called for a text ending in `' (deleted)'`) -/
+def pyReadlinkDenied (cfg : Cfg) (fs : FS) (raw : Bytes) : Bool :=
+  let path := raw.takeWhile (· != 0)
+  cfg.existsDeniedRaises && (endsWith cfg.delSuffix path && fs.denied path)
 
 /-! ### fdinfo -/
 
@@ -217,11 +263,13 @@ inductive InfoOut
   | ok (pos flags : Nat)
   | goneAtOpen (e : GoneErr)
   | goneAtRead (e : GoneErr)
+  | denied
   | raise (x : Exc)
 
 /-- open, first readline + parse, second readline + parse, in the order the code performs them -/
 def readFdinfo (cfg : Cfg) : InfoRes → InfoOut
   | .openErr e => .goneAtOpen e
+  | .openDenied => .denied
   | .ok content =>
     match parseFdinfo cfg content with
     | .error x => .raise x
@@ -240,11 +288,19 @@ inductive Step
   | item (f : POpenFile)
   | raise (e : Exc)
 
+/-- a PermissionError raised inside `try: path = readlink(file)` (by `os.readlink` itself or by
+    `path_exists_strict`): swallowed as "gone" if that handler catches it, re-raised by the
+    `except OSError` handler unless it names the errno among those it skips -/
+def deniedLinkStep (cfg : Cfg) : Step :=
+  if cfg.linkGoneDenied then .hit
+  else if cfg.linkDeniedRaises then .raise .permissionError else .skip
+
 def linkErrStep (cfg : Cfg) : LinkErr → Step
   | .enoent => if cfg.linkGoneEnoent then .hit else .raise .fileNotFound
   | .esrch => if cfg.linkGoneEsrch then .hit else .raise .processLookup
   | .einval => .skip
   | .enametoolong => .skip
+  | .eacces => deniedLinkStep cfg
 
 def infoErrStep (cfg : Cfg) : GoneErr → Step
   | .enoent => if cfg.infoGoneEnoent then .hit else .raise .fileNotFound
@@ -254,24 +310,33 @@ def infoReadErrStep (cfg : Cfg) : GoneErr → Step
   | .enoent => if cfg.infoReadGoneEnoent then .hit else .raise .fileNotFound
   | .esrch => if cfg.infoReadGoneEsrch then .hit else .raise .processLookup
 
+/-- the block guarded by `path.startswith('/') and isfile_strict(path)`: fdinfo, mode, tuple -/
+def scanFile (cfg : Cfg) (e : Entry) (path : Bytes) : Step :=
+  match readFdinfo cfg e.info with
+  | .denied => if cfg.infoGoneDenied then .hit else .raise .permissionError
+  | .goneAtOpen ie => infoErrStep cfg ie
+  | .goneAtRead ie => infoReadErrStep cfg ie
+  | .raise x => .raise x
+  | .ok pos flags =>
+    match fileFlagsToMode cfg flags with
+    | none => .raise .keyError
+    | some mode =>
+      match pyInt 10 e.name with
+      | none => .raise .valueError
+      | some fd => .item ⟨path, fd, pos, mode, flags⟩
+
 def scanOne (cfg : Cfg) (fs : FS) (e : Entry) : Step :=
   match e.link with
   | .err le => linkErrStep cfg le
   | .ok raw =>
-    let path := pyReadlink cfg fs raw
-    if startsWith cfg.absPrefix path && fs.isFile path then
-      match readFdinfo cfg e.info with
-      | .goneAtOpen ie => infoErrStep cfg ie
-      | .goneAtRead ie => infoReadErrStep cfg ie
-      | .raise x => .raise x
-      | .ok pos flags =>
-        match fileFlagsToMode cfg flags with
-        | none => .raise .keyError
-        | some mode =>
-          match pyInt 10 e.name with
-          | none => .raise .valueError
-          | some fd => .item ⟨path, fd, pos, mode, flags⟩
-    else .skip
+    if pyReadlinkDenied cfg fs raw then deniedLinkStep cfg
+    else
+      let path := pyReadlink cfg fs raw
+      -- `isfile_strict(path)`: os.stat refused → PermissionError (outside every try of the loop)
+      if startsWith cfg.absPrefix path && (cfg.isfileDeniedRaises && fs.denied path) then
+        .raise .permissionError
+      else if startsWith cfg.absPrefix path && fs.isFile path then scanFile cfg e path
+      else .skip
 
 /-- the `for fd in files:` loop: the list built and `hit_enoent`, or the first exception -/
 def scan (cfg : Cfg) (fs : FS) : List Entry → Except Exc (List POpenFile × Bool)
@@ -287,10 +352,14 @@ def goneExc : GoneErr → Exc
   | .enoent => .fileNotFound
   | .esrch => .processLookup
 
+def fileExc : FileErr → Exc
+  | .gone e => goneExc e
+  | .denied => .permissionError
+
 /-- body of `open_files` (before `wrap_exceptions`) -/
 def openFilesBody (cfg : Cfg) (fs : FS) (p : Proc) : Outcome (List POpenFile) :=
   match p.fdDir with
-  | .err e => .exc (goneExc e)
+  | .err e => .exc (fileExc e)
   | .ok entries =>
     match scan cfg fs entries with
     | .error x => .exc x
@@ -299,12 +368,12 @@ def openFilesBody (cfg : Cfg) (fs : FS) (p : Proc) : Outcome (List POpenFile) :=
       else .ok l
 
 def openFiles (cfg : Cfg) (fs : FS) (p : Proc) : Outcome (List POpenFile) :=
-  wrap p.alive (openFilesBody cfg fs p)
+  wrap cfg p.alive p.zombie (openFilesBody cfg fs p)
 
 /-- `num_fds` -/
-def numFds (p : Proc) : Outcome Nat :=
-  wrap p.alive (match p.fdDir with
-    | .err e => .exc (goneExc e)
+def numFds (cfg : Cfg) (p : Proc) : Outcome Nat :=
+  wrap cfg p.alive p.zombie (match p.fdDir with
+    | .err e => .exc (fileExc e)
     | .ok entries => .ok entries.length)
 
 /-! ### io_counters -/
@@ -342,9 +411,9 @@ def lookupAll (fields : List (Bytes × Nat)) : List Bytes → Option (List Nat)
     | _, _ => none
 
 /-- body of `io_counters`: the positional arguments of `pio(...)` -/
-def ioCountersBody (cfg : Cfg) (file : Res GoneErr Bytes) : Outcome (List Nat) :=
+def ioCountersBody (cfg : Cfg) (file : Res FileErr Bytes) : Outcome (List Nat) :=
   match file with
-  | .err e => .exc (goneExc e)
+  | .err e => .exc (fileExc e)
   | .ok content =>
     match ioFields cfg (linesOf content) [] with
     | .error x => .exc x
@@ -354,7 +423,8 @@ def ioCountersBody (cfg : Cfg) (file : Res GoneErr Bytes) : Outcome (List Nat) :
         | none => .exc .valueError        -- KeyError turned into ValueError by the code
         | some vs => .ok vs
 
-def ioCounters (cfg : Cfg) (alive : Bool) (file : Res GoneErr Bytes) : Outcome (List Nat) :=
-  wrap alive (ioCountersBody cfg file)
+def ioCounters (cfg : Cfg) (alive : Bool) (file : Res FileErr Bytes) (zombie : Bool := false) :
+    Outcome (List Nat) :=
+  wrap cfg alive zombie (ioCountersBody cfg file)
 
 end Psutil.C14
